@@ -3083,8 +3083,9 @@ impl<'a> Parser<'a> {
                 | TokenKind::TemplateHead(_)
                 | TokenKind::TemplateMiddle(_)
                 | TokenKind::TemplateTail(_)
-                | TokenKind::TemplateNoSub(_)
-                | TokenKind::Eof => break false,
+                | TokenKind::TemplateNoSub(_) => break false,
+                // No matching `)` at all: a syntax error either way, found without speculation
+                TokenKind::Eof => break true,
                 _ => {}
             }
             kind = self.lexer.next_token().kind;
